@@ -103,6 +103,7 @@ func RunCase(t *rapid.T, pd *PropDef, st *RunStats, known map[string]bool) {
 	it := NewInterp(cfg, pd.Policies, opt)
 	g := &Gen{P: pd.Profile, It: it}
 	n := rapid.IntRange(pd.Profile.MinOps, pd.Profile.MaxOps).Draw(t, "nops")
+	g.N = n
 	var ops []Op
 	cs := &Case{Property: pd.ID, Profile: pd.Profile.Name, Cfg: cfg}
 	failed := false
